@@ -29,11 +29,20 @@ def gen_tree(workdir, desc, argv=(), files=None, keep=False, skip_ext=(".log", "
     return r, tree
 
 
+FORTRAN_EXT = ("f", "f90", "f03", "f08", "for")
+C_EXT = ("c", "cc", "cpp", "cxx", "h", "hh", "hpp", "hxx")
+
+
 def strip_comments(name, data):
     """Token-ish stream of a generated source file with comments and blank lines removed."""
     text = data.decode("utf-8", "replace")
     out = []
-    if name.endswith((".f", ".f90")):
+    ext = name.rsplit(".", 1)[-1].lower() if "." in name else ""
+    if ext not in FORTRAN_EXT + C_EXT + ("lua", "py", "yaml", "json", "log", "txt", "rst"):
+        # suffixes are options (C_header_filename_suffix, ...): classify by the generated banner
+        first = text.lstrip()[:2]
+        ext = "f" if first.startswith("!") else ("c" if first in ("//", "/*") else ext)
+    if ext in FORTRAN_EXT:
         for ln in text.split("\n"):
             res = []
             q = None
@@ -53,7 +62,7 @@ def strip_comments(name, data):
             if s:
                 out.append(" ".join(s.split()))
         return "\n".join(out)
-    if name.endswith((".c", ".cpp", ".h", ".hpp", ".cxx")):
+    if ext in C_EXT:
         res = []
         i = 0
         n = len(text)
